@@ -444,6 +444,8 @@ func (db *SingleBucketBackend) deleteObjectLocked(bucketName, objectName string)
 		return err
 	}
 
+	removeEmptyParents(db.fs, path.Clean(objectName), ".")
+
 	return nil
 }
 
